@@ -66,6 +66,9 @@ pub struct LiftSpec {
     pub params: String,
     pub args: String,
     pub ret: String,
+    /// captured variables that the lifted function receives as `&mut`: `x = e` becomes `*x = e`
+    #[serde(default)]
+    pub deref: Vec<String>,
 }
 
 #[derive(Deserialize, Debug, Clone)]
@@ -130,7 +133,17 @@ fn main() {
                     out.push_str(&format!("// @item {} :: {}\n", src.file, sel));
                     out.push_str(&item.to_token_stream().to_string());
                     out.push_str("\n\n");
-                    for l in lifted.drain(..) {
+                    // lifted closures (R19) are rewritten like any other function; they may lift further closures
+                    let mut queue: Vec<Item> = lifted.drain(..).collect();
+                    let mut done: Vec<Item> = vec![];
+                    while let Some(mut l) = queue.pop() {
+                        rules::rewrite_item(&mut l, unit, &mut log, &mut lifted);
+                        done.push(l);
+                        queue.extend(lifted.drain(..));
+                    }
+                    done.reverse();
+                    let _ = &mut done;
+                    for l in done {
                         out.push_str(&format!("// @item {} :: {} (lifted)\n", src.file, sel));
                         out.push_str(&l.to_token_stream().to_string());
                         out.push_str("\n\n");
